@@ -50,6 +50,9 @@ class Apply(Stream):
             sig, tat, bars, arr = rand_grid(rng)
             m = rng.randrange(1, 8)
             mel = [{"kind": rng.choice("sssshr"), "val": i % 7, "oct": i // 7} for i in range(m)]
+            if rng.random() < 0.2:
+                # a drum or pattern melody: every element that is not a rest or a continuation is a pulse of the extracted grid
+                mel = [{"kind": rng.choice("ddx"), "val": i % 7, "oct": i // 7} for i in range(m)]
             case = {"sig": list(sig), "tatum": tat, "bars": bars, "array": arr, "mel": mel}
             if rng.random() < 0.3:
                 # a window [start, end) in tatums, possibly several grid lengths long (the grid repeats cyclically)
